@@ -24,6 +24,7 @@ var verifHarnesses = map[string]func(a []int){
 	"H_C10":            func(a []int) { H_C10(a[0], a[1], a[2], a[3], a[4], a[5]) },
 	"H_C07":            func(a []int) { H_C07(a[0], a[1], a[2], a[3], a[4]) },
 	"H_C05":            func(a []int) { H_C05(a[0], a[1], a[2], a[3], a[4]) },
+	"H_C05_seq":        func(a []int) { H_C05_seq(a[0], a[1]) },
 	"H_C15":            func(a []int) { H_C15(a[0], a[1]) },
 	"H_C06":            func(a []int) { H_C06(a[0], a[1], a[2], a[3], a[4]) },
 	"H_C09":            func(a []int) { H_C09(a[0]) },
